@@ -195,8 +195,11 @@ def write_evidence(mod, pid, tier, seed, res, wall, n_viol, known_hit):
         "wall_s": round(wall, 3),
         "violations": n_viol,
     }
-    os.makedirs(os.path.join(ROOT, "evidence"), exist_ok=True)
-    path = os.path.join(ROOT, "evidence", f"{pid}.json")
+    # evidence/ describes /repo itself; a run against another tree (VERIF_REPO = a scratch worktree with a seeded change) must not
+    # overwrite it: its report goes to scratch/evidence-other-tree/
+    edir = os.path.join(ROOT, "evidence") if os.path.realpath(REPO) == "/repo" else os.path.join(ROOT, "scratch", "evidence-other-tree")
+    os.makedirs(edir, exist_ok=True)
+    path = os.path.join(edir, f"{pid}.json")
     tmp = path + ".tmp"
     with open(tmp, "w") as f:
         json.dump(ev, f, indent=1, sort_keys=False)
